@@ -157,6 +157,11 @@ pub enum Op {
 	Open { from: usize, to: usize },
 	/// The chain confirms the funding transaction (6 blocks) - if the funder has broadcast it by now
 	ConfirmFunding,
+	/// `from` opens one channel to each node of `to`, funded by a single (batch) transaction
+	OpenBatch { from: usize, to: Vec<usize> },
+	/// A forged `channel_ready` for the channel between `to` and `from`, announcing point number `variant`,
+	/// is handed to `to` as if `from` had sent it
+	ForgeChannelReady { to: usize, from: usize, variant: u8 },
 }
 
 #[derive(Clone, Copy, Debug, PartialEq, Eq)]
@@ -584,6 +589,34 @@ impl WorldSys {
 				let tid = self.w.nodes[to].id;
 				let r = self.w.nodes[from].cm.create_channel(tid, 1_000_000, 400_000_000, 42, None, None);
 				self.w.obs.push(Obs::Api { node: from, what: "create_channel".into(), ok: r.is_ok(), detail: format!("{:?}", r.map(|_| ())) });
+				self.w.pump();
+			},
+			Op::OpenBatch { from, to } => {
+				self.w.batch_expected = to.len();
+				for t in to.iter() {
+					let tid = self.w.nodes[*t].id;
+					let r = self.w.nodes[from].cm.create_channel(tid, 1_000_000, 400_000_000, 42, None, None);
+					self.w.obs.push(Obs::Api { node: from, what: "create_channel".into(), ok: r.is_ok(), detail: format!("{:?}", r.map(|_| ())) });
+				}
+				self.w.pump();
+			},
+			Op::ForgeChannelReady { to, from, variant } => {
+				use bitcoin::secp256k1::{PublicKey, Secp256k1, SecretKey};
+				let fid = self.w.nodes[from].id;
+				let cid = self.w.nodes[to].cm.list_channels().iter().find(|c| c.counterparty.node_id == fid).map(|c| c.channel_id);
+				match cid {
+					Some(cid) => {
+						let point = PublicKey::from_secret_key(&Secp256k1::new(), &SecretKey::from_slice(&[0x40 + variant; 32]).unwrap());
+						let msg = lightning::ln::msgs::ChannelReady { channel_id: cid, next_per_commitment_point: point, short_channel_id_alias: None };
+						use lightning::ln::msgs::ChannelMessageHandler;
+						self.w.nodes[to].cm.handle_channel_ready(fid, &msg);
+						self.w.obs.push(Obs::Api { node: to, what: format!("forged-channel-ready:{}:{}", from, variant), ok: true, detail: format!("{}", cid) });
+						crate::runner::witness("c05-forged-channel-ready-delivered");
+					},
+					None => {
+						self.w.obs.push(Obs::Api { node: to, what: "forged-channel-ready-skipped".into(), ok: true, detail: "no channel".into() });
+					},
+				}
 				self.w.pump();
 			},
 			Op::ConfirmFunding => {
